@@ -35,8 +35,9 @@ GROUPS = [
      dict(accept_regex=r'/(dir|pub|$)', reject_regex=r'priv|\.zip')),
     ('directories', ['-I', '/pub,/di*', '-X', '/dir/priv'],
      dict(include_directories=['/pub', '/di*'], exclude_directories=['/dir/priv'])),
-    ('filename', ['-A', 'html,*.png', '-R', 'bad*'],
-     dict(accept=['html', '*.png'], reject=['bad*'])),
+    # (-A and -R are separate parameterisations: wpull's -R lacks comma-list parsing and
+    # rejects nearly everything, which would mask what -A lets through)
+    ('filename', ['-A', 'html,*.png,in*'], dict(accept=['html', '*.png', 'in*'])),
     ('span', ['--span-hosts-allow', 'page-requisites,linked-pages'],
      dict(span_allow_requisites=True, span_allow_linked=True)),
 ]
@@ -54,7 +55,7 @@ START_HOSTS = ['a.test']
 SCHEMES = ['http', 'https', 'ftp']
 HOSTS = ['a.test', 'b.test', 'x.a.test', 'c.test']
 PATHS = ['/', '/dir/', '/dir/index.html', '/dir/priv/f.zip', '/pub/pic.png', '/other',
-         '/dir/sub/bad.html', '/dirx/q.html']
+         '/dir/sub/bad.html', '/dirx/q.html', '/dir/main-index.txt']
 PORTS = [None, 8080]
 NAMEMAP = {'SchemeFilter': 'scheme', 'HTTPSOnlyFilter': 'scheme',
            'RecursiveFilter': 'recursive', 'FollowFTPFilter': 'follow_ftp',
@@ -158,6 +159,7 @@ def jobs(tier, seed):
     for e in E2E:
         js.append(dict(kind='e2e', name=e))
         js.append(dict(kind='e2e', name=e + '+robots'))
+    js.append(dict(kind='e2e', name='sitemap'))
     if seed:
         k = seed % len(js)
         js = js[k:] + js[:k]
@@ -341,12 +343,65 @@ E2E = {
                 dict(recursive=True, exclude_hostnames=['b.test']), 307, True),
     'rej-301': (['-r', '--reject-regex', 'landing|secret2'],
                 dict(recursive=True, reject_regex='landing|secret2'), 301, True),
+    # directory lists as the only rule that keeps /priv (or everything but /dir) out
+    'x-302': (['-r', '-X', '/priv'], dict(recursive=True, exclude_directories=['/priv']), 302,
+              True),
+    'xw-308': (['-r', '-X', '/pr*,/nonexistent'],
+               dict(recursive=True, exclude_directories=['/pr*', '/nonexistent']), 308, True),
+    'i-301': (['-r', '-I', '/dir'], dict(recursive=True, include_directories=['/dir']), 301,
+              True),
 }
+
+
+def run_sitemap_e2e():
+    """Out-of-scope links offered by a sitemap (and a second sitemap on another host named in
+    robots.txt): other host, excluded directory, rejected suffix."""
+    from vt.appharn import AppRun
+    locs = ['http://a.test/dir/ok.html', 'http://b.test/forbidden',
+            'http://a.test/priv/secret.html', 'http://a.test/dir/big.zip',
+            'http://a.test/dir/deep/x.html', 'https://a.test/dir/tls.html']
+    sm = '<?xml version="1.0" encoding="UTF-8"?><urlset xmlns="http://www.sitemaps.org/' \
+         'schemas/sitemap/0.9">' + ''.join('<url><loc>%s</loc></url>' % u for u in locs) + \
+         '</urlset>'
+    leaf = {'links': []}
+    site = {'hosts': {
+        'a.test': {'/dir/index.html': {'links': ['/dir/a.html']}, '/dir/a.html': leaf,
+                   '/robots.txt': {'body': 'User-agent: *\nDisallow:\nSitemap: http://a.test/'
+                                           'sitemap.xml\nSitemap: http://b.test/sm2.xml\n',
+                                   'ctype': 'text/plain'},
+                   '/sitemap.xml': {'body': sm, 'ctype': 'application/xml'},
+                   '/dir/ok.html': leaf, '/priv/secret.html': leaf, '/dir/deep/x.html': leaf,
+                   '/dir/big.zip': {'body': 'Z', 'ctype': 'application/zip'},
+                   '/dir/tls.html': leaf},
+        'b.test': {'/forbidden': leaf, '/robots.txt': {'body': '', 'ctype': 'text/plain'},
+                   '/sm2.xml': {'body': sm.replace('ok.html', 'ok2.html'),
+                                'ctype': 'application/xml'}}}}
+    argv = ['http://a.test/dir/index.html', '-r', '--sitemaps', '-X', '/priv', '-R', 'zip',
+            '--delete-after', '--waitretry', '0', '--tries', '1']
+    out = AppRun(site, argv, Chooser(), early=False).run()
+    reqs = [(q['headers'].get('host'), q['target']) for q in out['requests']]
+    if out['result'] != 'ok' or out['exc']:
+        return 'crawl failed: %s %s' % (out['result'], out['exc']), reqs
+    for host, target in reqs:
+        if host != 'a.test':
+            return 'request to %s%s: host outside the permitted set (offered by a ' \
+                   'sitemap)' % (host, target), reqs
+        if target.startswith('/priv'):
+            return 'request for %s: inside the excluded directory /priv (offered by a ' \
+                   'sitemap)' % target, reqs
+        if target.endswith('.zip'):
+            return 'request for %s: rejected suffix (offered by a sitemap)' % target, reqs
+    if ('a.test', '/dir/ok.html') not in reqs:
+        return 'the in-scope sitemap entry /dir/ok.html was not requested (vacuous ' \
+               'scenario)', reqs
+    return None, reqs
 
 
 def run_e2e(name, chooser):
     from vt.appharn import AppRun
     from vt.checks import c01
+    if name == 'sitemap':
+        return run_sitemap_e2e()
     robots = name.endswith('+robots')
     argv_o, ro, code, strong = E2E[name.split('+')[0]]
     site = _site(code)
